@@ -421,8 +421,10 @@ func (t *ControllableTask) Launch() error {
 				_ = t.rpc.Close()
 				t.rpc = nil
 
+				_ = syscall.Kill(-taskCmd.Process.Pid, syscall.SIGKILL) // the task is given up: do not leave it running
 				_ = stdoutIn.Close()
 				_ = stderrIn.Close()
+				_ = taskCmd.Wait()
 
 				return
 			} else {
